@@ -33,6 +33,25 @@ def memberBytes (m : Member) : Bytes :=
 
 def build (ms : List Member) : Bytes := Ar.magic ++ (ms.map memberBytes).flatten
 
+/-! ### members too large to write down
+
+A member together with a number `k` of further zero bytes after its data: the archive is
+given as runs (`Ar.Seg`), so members of 10^9 bytes and more (a ten-digit size column) are
+specified without being materialised.  `Lemmas/ArSparse.lean`: the runs flatten to `build`
+of the materialised members. -/
+
+def materialise (mk : Member × Nat) : Member := { mk.1 with data := mk.1.data ++ List.replicate mk.2 0 }
+
+def headerLen (m : Member) (len : Nat) : Bytes :=
+  padTo 16 (m.name ++ (if m.gnuSlash then [47] else [])) ++ numCol 12 m.timestamp ++ numCol 6 m.ownerID
+    ++ numCol 6 m.groupID ++ padTo 8 m.mode ++ padTo 10 (Str.fmtNat len) ++ [96, 10]
+
+def memberSegs (mk : Member × Nat) : List Ar.Seg :=
+  let len := mk.1.data.length + mk.2
+  [.lit (headerLen mk.1 len ++ mk.1.data), .zeros mk.2, .lit (if len % 2 = 1 then [10] else [])]
+
+def buildSegs (mks : List (Member × Nat)) : List Ar.Seg := .lit Ar.magic :: (mks.map memberSegs).flatten
+
 /-- columns wide enough, name not ambiguous under trimming -/
 def wfMember (m : Member) : Bool :=
   !m.name.isEmpty && (m.name ++ (if m.gnuSlash then [47] else [])).length ≤ 16
